@@ -1173,9 +1173,11 @@ func report(prop, tier string, seed uint64, plan Plan, bin, rbin string, results
 			"worker_crashes":      len(crashes),
 		},
 	}
-	_ = os.MkdirAll(filepath.Join(verifDir, "evidence"), 0o755)
+	// (runs against a scratch tree, e.g. with a seeded change applied, keep their evidence out of /verif/evidence)
+	evDir := envOr("VERIF_EVIDENCE_DIR", filepath.Join(verifDir, "evidence"))
+	_ = os.MkdirAll(evDir, 0o755)
 	b, _ := json.MarshalIndent(ev, "", " ")
-	if err := os.WriteFile(filepath.Join(verifDir, "evidence", prop+".json"), append(b, '\n'), 0o644); err != nil {
+	if err := os.WriteFile(filepath.Join(evDir, prop+".json"), append(b, '\n'), 0o644); err != nil {
 		fatal2("write evidence: %v", err)
 	}
 	fmt.Printf("%s %s: %d runs, %d distinct non-trivial interleavings, %.1f s simulated, %d yields, wall %.1f s, exit %d\n",
